@@ -1526,6 +1526,20 @@ static void gen_misc(Gen& g, bool thorough) {
         if (X[x].kind == 'N' && X[x].a1 == uint64_t(LabelType::kLocal) && X[x].a2 == 3 && V[a].kind != 'n') u.calls[1].must = "parent-label-invalid";   // parent id == label_count()
         g.sink(u);
       }
+      // embed_label_delta() of two labels that are bound 208 bytes apart: -208 fits neither int8 nor uint8 (the statement of
+      // embed_label_delta: "label - base" stored in data_size bytes), +208 fits uint8, both fit 2 bytes
+      for (int v = 0; v < 4; v++) {
+        if (!g.want_cfg(ck)) continue;
+        Unit u; u.cfg.arch = arch; u.cfg.ek = ek; u.cfg.hk = hk; u.group = "misc:delta";
+        u.calls.push_back(misc('D', uint64_t(TypeId::kUInt8), 16, 13));
+        u.calls.push_back(misc('B', 1));
+        if (v == 0) u.calls.push_back(misc('X', 0, 1, 1, "label-delta-does-not-fit-data-size"));
+        if (v == 1) u.calls.push_back(misc('X', 1, 0, 1));
+        if (v == 2) u.calls.push_back(misc('X', 0, 1, 2));
+        if (v == 3) { u.calls.push_back(misc('D', uint64_t(TypeId::kUInt8), 16, 4093)); u.calls.push_back(misc('B', 2)); u.calls.push_back(misc('X', 0, 2, 2, "label-delta-does-not-fit-data-size")); }   // -65696
+        u.calls.push_back(V[0]);
+        g.sink(u);
+      }
       // the call alone, and two weird calls in a row (thorough: all pairs)
       for (size_t x = 0; x < X.size(); x++) {
         if (g.want_cfg(ck)) { Unit u; u.cfg.arch = arch; u.cfg.ek = ek; u.cfg.hk = hk; u.group = "misc:alone"; u.calls.push_back(X[x]);
